@@ -33,6 +33,8 @@ type ABCIGenesis struct {
 		Type    string `json:"type"`
 		Genesis bool   `json:"genesis"`
 	} `json:"pools"`
+	// VestingDenom is the vesting module's denomination parameter in the genesis file ("" = uc4e)
+	VestingDenom string `json:"vesting_denom,omitempty"`
 	// UpperOwners lists the pool owners (account indexes) that the genesis file spells in upper case bech32
 	UpperOwners []int `json:"upper_owners,omitempty"`
 }
@@ -76,6 +78,9 @@ func GenABCIGenesis(t *rapid.T) ABCIGenesis {
 			LockS: []int64{5, 30, 3600, 86400 * 30}[rapid.IntRange(0, 3).Draw(t, l+"_lock")], Type: g.VTypes[rapid.IntRange(0, len(g.VTypes)-1).Draw(t, l+"_vt")].Name,
 			Genesis: rapid.Bool().Draw(t, l+"_gen")})
 	}
+	if rapid.IntRange(0, 3).Draw(t, "vestingDenom") == 0 {
+		g.VestingDenom = "uatom"
+	}
 	for _, o := range []int{1, 2} {
 		if n > 0 && rapid.IntRange(0, 3).Draw(t, fmt.Sprintf("upperOwner%d", o)) == 0 {
 			g.UpperOwners = append(g.UpperOwners, o)
@@ -91,6 +96,10 @@ func (g ABCIGenesis) Spec() GenesisSpec {
 		RemainderToMint: sdk.ZeroDec(), RemainderFromPreviousMinter: sdk.ZeroDec(), LastMintBlockTime: T0}}
 	spec.Distributor = &distrtypes.GenesisState{Params: g.Distr.Build()}
 	vg := DefaultVestingGenesis()
+	if g.VestingDenom != "" {
+		vg.Params.Denom = g.VestingDenom
+		spec.AccExtraCoins = sdk.NewCoins(sdk.NewCoin(g.VestingDenom, sdk.NewIntFromUint64(1_000_000_000_000_000_000)))
+	}
 	for _, vt := range g.VTypes {
 		vg.VestingTypes = append(vg.VestingTypes, vt.GenesisForm())
 	}
